@@ -629,7 +629,8 @@ exactly once, each direction in the order offered, and the joint state is quiesc
 timer room for the client's polls), in lazy DNS mode, and in raw mode (frames up to 4091 bytes).
 
 PARTIAL with respect to the property text — what is missing:
-* OVERLAPPING transfers: a packet offered on one side while a transfer in the other direction is still in progress (the
+* OVERLAPPING transfers (partly proved since: `Props/C02b.lean`, `overlap_offer_lazy`, `overlap_round_lazy`,
+  `overlap_single_lazy`): a packet offered on one side while a transfer in the other direction is still in progress (the
   prompt schedule is run to quiescence between two offers).  Checked on concrete runs only (`test_imm_both`, `test_lazy_both`).
   What a proof needs: a joint invariant for "upstream flight `(o, f)` and downstream flight `(o', f')` at the same time" —
   the product of `UpFlight` and `DownPing`/`DownFlightL`, in which data queries also carry downstream acks and answers to
